@@ -58,8 +58,9 @@ fn toml_for(subset: u32, wrong: Option<(usize, i64)>, t: &Truth) -> String {
             s.push_str(&format!("#{k} = None # (Uncomment and set to enable)\n"));
             continue;
         }
+        // (index 99: every configured key is wrong at the same time)
         let delta = match wrong {
-            Some((wi, d)) if wi == i => d,
+            Some((wi, d)) if wi == i || wi == 99 => d,
             _ => 0,
         };
         match *k {
@@ -264,6 +265,11 @@ pub fn run(tier: Tier) -> i32 {
                 }
             }
         }
+        // every key of the subset wrong at once: every failing check is reported, not only the first
+        if subset.count_ones() >= 2 {
+            cases.push((subset, Some((99, -1))));
+            cases.push((subset, Some((99, 1))));
+        }
     }
     let res = par_map(&cases, |_, (subset, wrong)| {
         let toml = toml_for(*subset, *wrong, &t);
@@ -275,12 +281,17 @@ pub fn run(tier: Tier) -> i32 {
             Err(e) => rep.violation(Violation { signature: "custom:crash".into(), description: format!("{e} [toml: {}]", toml.replace('\n', "; ")), replay: json!({"toml": toml}) }),
             Ok((codes, full, status)) => {
                 let got: BTreeSet<&str> = codes.iter().map(|s| s.as_str()).filter(|c| custom_codes.contains(c)).collect();
-                let want: BTreeSet<&str> = wrong.map(|(k, _)| code_of_key(k)).into_iter().collect();
+                let want: BTreeSet<&str> = match wrong {
+                    // all configured keys wrong; the chip order of a lane is only judged when its chip count is right
+                    Some((99, _)) => (0..5).filter(|k| subset & (1 << k) != 0 && !(*k == 4 && subset & (1 << 3) != 0)).map(code_of_key).collect(),
+                    Some((k, _)) => [code_of_key(*k)].into_iter().collect(),
+                    None => BTreeSet::new(),
+                };
                 if got != want {
                     let kind = if want.is_subset(&got) { format!("false-alarm:{}", got.difference(&want).next().unwrap()) } else { format!("missed:{}", want.difference(&got).next().unwrap()) };
                     rep.violation(Violation {
                         signature: format!("custom:{kind}"),
-                        description: format!("configured keys {:?}{}: codes {:?}, expected {:?}", KEYS.iter().enumerate().filter(|(i, _)| subset & (1 << i) != 0).map(|(_, k)| *k).collect::<Vec<_>>(), wrong.map(|(k, d)| format!(" with {} {}1", KEYS[k], if d < 0 { "-" } else { "+" })).unwrap_or_default(), got, want),
+                        description: format!("configured keys {:?}{}: codes {:?}, expected {:?}", KEYS.iter().enumerate().filter(|(i, _)| subset & (1 << i) != 0).map(|(_, k)| *k).collect::<Vec<_>>(), wrong.map(|(k, d)| format!(" with {} {}1", if k == 99 { "every key" } else { KEYS[k] }, if d < 0 { "-" } else { "+" })).unwrap_or_default(), got, want),
                         replay: json!({"toml": toml, "input_hex": hex(&t.bytes)}),
                     });
                 }
